@@ -184,6 +184,9 @@ def main_wrapper(fn):
         import signal
         # a terminated check still removes its tmpfs directory and stops its zygotes (atexit handlers run on SystemExit)
         signal.signal(signal.SIGTERM, lambda *_: sys.exit(143))
+        if os.environ.get('VERIF_FAULT_DUMP'):          # diagnosis aid: periodic stack dumps of the orchestrator
+            import faulthandler
+            faulthandler.dump_traceback_later(float(os.environ['VERIF_FAULT_DUMP']), repeat=True)
         args = parse_args()
         ensure_setup()
         code = fn(args)
